@@ -11,6 +11,7 @@ read must equal the first.
 from __future__ import annotations
 
 import itertools
+import os
 import warnings
 from collections import Counter
 
@@ -35,6 +36,16 @@ A = URIRef(EX + "a")
 G1 = URIRef(EX + "g1")
 
 
+REMOTE_PATH = "/var/tmp/verif_c13_remote.ttl"   # written by run()/replay(), removed afterwards
+REMOTE_URL = "file://" + REMOTE_PATH
+
+
+def _write_remote():
+    with open(REMOTE_PATH + ".tmp", "w") as f:
+        f.write("<%sr1> <%sp> <%sr2> .\n<%sr2> <%sp> \"remote\" .\n" % (EX, EX, EX, EX, EX))
+    os.replace(REMOTE_PATH + ".tmp", REMOTE_PATH)
+
+
 def _rows_of_result(res):
     if res.type == "ASK":
         return ("ask", res.askAnswer)
@@ -53,6 +64,9 @@ QUERIES = {
     "select-union": "SELECT * WHERE { { ?s <%sp> ?o } UNION { GRAPH ?g { ?s <%sq> ?o } } }" % (EX, EX),
     "select-optional": "SELECT * WHERE { ?s <%sp> ?o OPTIONAL { ?o <%sp> ?z } }" % (EX, EX),
     "select-from": "SELECT * FROM <%sg1> WHERE { ?s ?p ?o }" % EX,
+    # FROM a document that is NOT a graph of the dataset and is fetched (SPARQL_LOAD_GRAPHS is on by default): it may be read, the dataset may not change
+    "select-from-file": "SELECT * FROM <%s> WHERE { ?s ?p ?o }" % REMOTE_URL,
+    "select-from-file+named": "SELECT * FROM <%s> FROM NAMED <%sg1> WHERE { { ?s ?p ?o } UNION { GRAPH ?g { ?s ?p ?o } } }" % (REMOTE_URL, EX),
     "select-from-named": "SELECT * FROM NAMED <%sg1> WHERE { GRAPH ?g { ?s ?p ?o } }" % EX,
     "select-path": "SELECT * WHERE { ?s <%sp>* ?o }" % EX,
     "select-agg": "SELECT ?s (COUNT(?o) AS ?n) WHERE { ?s ?p ?o } GROUP BY ?s",
@@ -273,7 +287,14 @@ def run(ctx):
     for state, pairs in items:
         for sh in R.shards(pairs, max(1, len(pairs) // 400)):
             work.append((state, sh))
-    res = R.pmap(_batch, R.shards(work, ctx.jobs * 8), ctx.jobs)
+    _write_remote()
+    try:
+        res = R.pmap(_batch, R.shards(work, ctx.jobs * 8), ctx.jobs)
+    finally:
+        try:
+            os.remove(REMOTE_PATH)
+        except OSError:
+            pass
     tr = 0
     for viols, n, nt in res:
         ctx.extend(viols)
@@ -299,7 +320,14 @@ def replay(ctx, case):
     kind, content, union = case["state"]
     state = (kind, [tuple(None if x is None else list(x) for x in q) for q in content], union)
     reads = _get_reads("graph" if kind == "graph" else "dataset")
-    v = run_pair(state, case["reads"][0], case["reads"][1], reads, horizon=60.0)
+    _write_remote()
+    try:
+        v = run_pair(state, case["reads"][0], case["reads"][1], reads, horizon=60.0)
+    finally:
+        try:
+            os.remove(REMOTE_PATH)
+        except OSError:
+            pass
     return [{"sig": v[0], "case": case, "detail": v[1]}] if v else []
 
 
